@@ -75,6 +75,9 @@ def leaf(profile='plain'):
   if profile == 'plain':  # nan-free, cheap, hashable literals
     return st.one_of(_small_int, _ident_str, st.none(), st.booleans(),
                      st.sampled_from([1.5, -0.0, 2.0]).map(enc))
+  if profile == 'plain_nan':  # 'plain' and now and then a NaN (a value that is not equal to itself)
+    return st.sampled_from(range(10)).flatmap(
+        lambda i: st.just(enc(math.nan)) if i == 0 else leaf('plain'))
   if profile == 'any':
     return st.one_of(
         _small_int, st.integers().map(enc), _ident_str, st.text(max_size=6).map(enc),
@@ -84,6 +87,8 @@ def leaf(profile='plain'):
         st.sampled_from(list(things.Color)).map(enc),
         st.just(Ellipsis).map(enc),
         st.complex_numbers(allow_nan=False, allow_infinity=False, max_magnitude=1e6).map(enc),
+        # multi-line text with carriage returns (a source-code tokenizer normalises raw CR / CRLF)
+        st.sampled_from(['line1\r\nline2\r\n', 'a\rb\nc', '"""\n\r', 'tab\there\nand\\n']).map(enc),
     )
   if profile == 'any_enum':  # 'any' plus members of a nested enum and of a same-named top-level enum
     return st.one_of(leaf('any'), leaf('any'), st.sampled_from([
@@ -110,7 +115,7 @@ def leaf(profile='plain'):
         st.just({'$nv': 1}),
         st.just({'$sym': 'things:CONST_OBJ'}), st.just({'$sym': 'things:f2'}),
         st.just({'$sym': 'things:Base'}), st.just({'$sym': 'things:DICT_OBJ'}),
-        st.just({'$sym': 'things:DICT_OBJ_NEW'}), st.just({'$sym': 'things:FRAC_3_2'}),
+        st.just({'$sym': 'things:DICT_OBJ_NEW'}), st.just({'$sym': 'things:FRAC_3_2'}), st.just({'$sym': 'things:DICT_OBJ_GUARD'}),
     )
   if profile == 'hashable_ser':  # dict keys / set elements
     return st.one_of(
